@@ -2315,8 +2315,11 @@ ure_exec(ure_dfa_t dfa, int flags, ucs2_t *text, unsigned long textlen,
       if (stp->accepting == 0) {
 	/*
 	 * If the last state was not accepting, then reset
-	 * and start over.
+	 * and start over, one character after the start
+	 * of the failed attempt.
 	 */
+	if (ms != (unsigned long) ~0)
+	  sp = text + ms + 1;
 	stp = dfa->states;
 	ms = me = ~0;
       } else
